@@ -39,7 +39,7 @@ pub fn worker(property: &str, tier: &str) {
     crate::session::install_panic_hook();
     silence_stderr();
     let corpus = load_corpus(&corpus_path());
-    let opts = ExecOpts { open_findings: load_findings(), collect_codes: std::env::var("SIM_COLLECT_CODES").is_ok(), ..Default::default() };
+    let opts = ExecOpts { open_findings: load_findings(), collect_codes: std::env::var("SIM_COLLECT_CODES").is_ok(), code_dedup: true, ..Default::default() };
     let root = root_seed();
     let stdin = std::io::stdin();
     let stdout = std::io::stdout();
@@ -170,7 +170,7 @@ struct Agg {
     per_label: BTreeMap<String, u64>,
     per_project: BTreeSet<String>,
     log_hashes: BTreeMap<u64, u64>, // index -> log hash (determinism mode)
-    codes: BTreeMap<u64, (String, u64)>, // code hash -> (code, run index)
+    codes: BTreeMap<u64, (CodeItem, u64)>, // module hash -> (module, run index)
     suspects: Vec<(u64, String)>,   // run index, "stalled"/"crashed"
     ops_total: u64,
     harness: Vec<String>,
@@ -205,7 +205,7 @@ pub struct CheckResult {
     pub agg_stats: Stats,
     pub violations: Vec<(Violation, String)>, // violation, replay path
     pub evidence: serde_json::Value,
-    pub codes: BTreeMap<u64, (String, u64)>,
+    pub codes: BTreeMap<u64, (CodeItem, u64)>,
     pub harness_error: Option<String>,
     pub log_hashes: BTreeMap<u64, u64>,
 }
@@ -366,8 +366,13 @@ fn absorb(a: &mut Agg, idx: u64, info: &serde_json::Value, out: Outcome) {
     }
     a.fs_hashes.extend(out.built_fs_hashes);
     a.log_hashes.insert(idx, out.log_hash);
-    for (h, c) in out.codes {
-        a.codes.entry(h).or_insert((c, idx));
+    for c in out.codes {
+        match a.codes.get(&c.hash) {
+            Some((_, i)) if *i <= idx => {}
+            _ => {
+                a.codes.insert(c.hash, (c, idx));
+            }
+        }
     }
 }
 
@@ -481,6 +486,40 @@ pub fn check(cfg: &CheckCfg) -> i32 {
         }
     }
 
+    let mut node_modules_checked = 0u64;
+    if cfg.collect_codes {
+        let cap = if cfg.tier == "quick" { 6000 } else { 60000 };
+        let items: Vec<&CodeItem> = agg.codes.values().map(|(c, _)| c).take(cap).collect();
+        node_modules_checked = items.len() as u64;
+        match node_leg(&items, "check") {
+            Err(e) => harness_errors.push(format!("node leg: {}", e)),
+            Ok(bad) => {
+                for (h, class, detail) in bad {
+                    if let Some((item, _)) = agg.codes.get(&h) {
+                        if item.alias_cycle {
+                            if let Some(k) = findings.iter().find(|k| k.status == "open" && k.property == "C04" && k.signature.get("kind").and_then(|x| x.as_str()) == Some("noncontractive-alias-cycle")) {
+                                let line = format!("KNOWN-FINDING: property=C04 emitted module fails in Node ({}) for a project with a constructor-free type-alias cycle [{}]", class, k.id);
+                                agg.kf_lines.entry(k.id.clone()).or_insert((line, 0)).1 += 1;
+                                *agg.stats.known_findings.entry(k.id.clone()).or_insert(0) += 1;
+                                continue;
+                            }
+                        }
+                    }
+                    if let Some((_, idx)) = agg.codes.get(&h) {
+                        let key = ("C04".to_string(), class.clone());
+                        let v = Violation { property: "C04".into(), class: class.clone(), detail: json!({"module_hash": format!("{:016x}", h), "node": detail}), op_index: 0 };
+                        match agg.violations.get(&key) {
+                            Some((i, _)) if *i <= *idx => {}
+                            _ => {
+                                agg.violations.insert(key, (*idx, v));
+                            }
+                        }
+                    }
+                }
+            }
+        }
+    }
+
     for idx in cross_diff.iter().take(3) {
         let mut run = plan(&corpus, &cfg.property, &cfg.tier, root, *idx);
         run.violation_class = "differ:across-os-processes".into();
@@ -581,6 +620,8 @@ pub fn check(cfg: &CheckCfg) -> i32 {
             "checkpoints_handed_to_C10": agg.stats.checkpoints_handed_to_c10,
             "c04_builds_checked": agg.stats.c04_builds_checked,
             "c04_located_diagnostics_checked": agg.stats.c04_locations_checked,
+            "c04_emitted_modules_imported_by_node": node_modules_checked,
+            "c04_distinct_emitted_modules_seen": agg.codes.len(),
             "c10_comparisons": agg.stats.c10_comparisons,
             "c10_variants_built": agg.stats.c10_variants_built,
             "c10_runs_compared_across_os_processes": cross_compared,
@@ -656,6 +697,53 @@ fn known_alias_cycle(agg: &mut Agg, findings: &[KnownFinding], r: &Run, how: &st
         }
         None => false,
     }
+}
+
+/// Node leg of I-C04: every emitted module is wrapped the way bundle-to-disk.ts wraps it and
+/// imported by Node against the type-stripped client runtime; buildParsers with every declared
+/// format registered must return a parser for every requested name.
+/// Returns (module hash, violation class, detail) per failing module; Err = harness problem.
+pub fn node_leg(items: &[&CodeItem], label: &str) -> Result<Vec<(u64, String, serde_json::Value)>, String> {
+    if items.is_empty() {
+        return Ok(vec![]);
+    }
+    let jsrt = format!("{}/out/jsrt", home());
+    if !std::path::Path::new(&format!("{}/node_modules/@beff/client/package.json", jsrt)).exists() && crate::tools::prepare_js(&jsrt) != 0 {
+        return Err("cannot prepare the type-stripped client runtime".into());
+    }
+    let dir = format!("{}/c04mods_{}_{}", jsrt, label, std::process::id());
+    let _ = std::fs::remove_dir_all(&dir);
+    std::fs::create_dir_all(&dir).map_err(|e| e.to_string())?;
+    let nproc = 8usize.min(items.len());
+    let mut lists: Vec<Vec<serde_json::Value>> = vec![vec![]; nproc];
+    for (i, it) in items.iter().enumerate() {
+        let file = format!("{}/{:016x}.mjs", dir, it.hash);
+        let full = crate::tools::finalize(&it.code, "esm", &it.string_formats, &it.number_formats);
+        std::fs::write(&file, full).map_err(|e| e.to_string())?;
+        lists[i % nproc].push(json!({"hash": format!("{:016x}", it.hash), "file": file, "expected_keys": it.expected_keys, "string_formats": it.string_formats, "number_formats": it.number_formats}));
+    }
+    let mut children = vec![];
+    for (k, l) in lists.iter().enumerate() {
+        let lf = format!("{}/list_{}.json", dir, k);
+        std::fs::write(&lf, serde_json::to_string(l).unwrap()).map_err(|e| e.to_string())?;
+        let child = Command::new("node").arg(format!("{}/js/jsim.mjs", home())).arg("c04node").arg(&lf).env("VERIF_HOME", home()).env("JSRT", &jsrt).stdin(Stdio::null()).stdout(Stdio::piped()).stderr(Stdio::piped()).spawn().map_err(|e| format!("cannot start node: {}", e))?;
+        children.push(child);
+    }
+    let mut out = vec![];
+    for child in children {
+        let o = child.wait_with_output().map_err(|e| e.to_string())?;
+        let text = String::from_utf8_lossy(&o.stdout).to_string();
+        let line = text.lines().last().unwrap_or("");
+        let v: serde_json::Value = serde_json::from_str(line).map_err(|e| format!("node leg produced no result ({}): {}", e, String::from_utf8_lossy(&o.stderr).chars().take(400).collect::<String>()))?;
+        for r in v.as_array().cloned().unwrap_or_default() {
+            if r["ok"].as_bool() != Some(true) {
+                let h = u64::from_str_radix(r["hash"].as_str().unwrap_or("0"), 16).unwrap_or(0);
+                out.push((h, r["class"].as_str().unwrap_or("module-check-failed").to_string(), r["detail"].clone()));
+            }
+        }
+    }
+    let _ = std::fs::remove_dir_all(&dir);
+    Ok(out)
 }
 
 static SPECIAL: Mutex<Vec<(u64, Run, Violation)>> = Mutex::new(vec![]);
@@ -749,6 +837,25 @@ pub fn replay_file(path: &str, quiet: bool) -> i32 {
     };
     let want_prop = run.observed.get("property").and_then(|v| v.as_str()).unwrap_or(&run.property).to_string();
     let class = run.violation_class.clone();
+    if class.starts_with("module-") {
+        crate::session::install_panic_hook();
+        silence_stderr();
+        let opts = ExecOpts::default();
+        return match minimize::reproduces(&run, &opts, "C04", &class) {
+            Some(_) => {
+                if !quiet {
+                    println!("VIOLATION property=C04 replay={} class={}", path, class);
+                }
+                1
+            }
+            None => {
+                if !quiet {
+                    println!("replay of {} did not reproduce class '{}'", path, class);
+                }
+                0
+            }
+        };
+    }
     if class == "differ:across-os-processes" {
         let a = exec_isolated_masked(&run, Duration::from_secs(60), None);
         let b = exec_isolated_masked(&run, Duration::from_secs(60), Some("0"));
